@@ -1099,7 +1099,7 @@ def run_cases(rep, drv, cases, stats, label=""):
         stats["by_tag"][c.tag or label] = stats["by_tag"].get(c.tag or label, 0) + 1
         if k == "UB":
             ubs.append((c, li, d))
-        res.append((c, li, k, d))
+        res.append((c, li, k, d, o))
     # UBSan reports: separate bucket; violation only if the ASan-only build faults or misreports as well
     if ubs:
         for c, li, d in ubs:
@@ -1117,7 +1117,7 @@ def run_cases(rep, drv, cases, stats, label=""):
                     stats["ub_memory_safe"] += 1
         except vlib.BuildError as e:
             rep.tie_broken("ASan-only build failed, UBSan reports could not be classified: " + str(e)[:300])
-    for c, li, k, d in res:
+    for c, li, k, d, _o in res:
         if k == "FAULT":
             stats["violations"].append((c.op, "FAULT " + d, li))
         elif k == "TIMEOUT":
@@ -1187,7 +1187,7 @@ def run(tier):
         run_cases(rep, drv, corpus, stats, "corpus")
         flush_violations(rep, stats)
     # 2. generated cases
-    total = 100_000 if tier == "quick" else 5_000_000
+    total = 300_000 if tier == "quick" else 5_000_000
     chunk = 250_000
     done = 0
     tie_pool = []
@@ -1195,8 +1195,8 @@ def run(tier):
         n = min(chunk, total - done)
         cases = gen_cases(n, rng)
         res = run_cases(rep, drv, cases, stats)
-        if len(tie_pool) < 40000:
-            tie_pool += [(c, li, k, d) for c, li, k, d in res if TIE.get(c.op) and tie_ok(c)][: 40000 - len(tie_pool)]
+        if len(tie_pool) < 400000:
+            tie_pool += [r for r in res if TIE.get(r[0].op) and tie_ok(r[0])][: 400000 - len(tie_pool)]
         done += len(cases)
         flush_violations(rep, stats)
         if len(rep.violations) >= 5:
@@ -1211,9 +1211,7 @@ def run(tier):
     missing = [op for op in ALL_OPS if op not in stats["by_op"]]
     if missing:
         rep.tie_broken("entry points without a single case: " + ", ".join(missing))
-    for op in ALL_OPS[:4]:
-        pass
-    for c, li, k, d in (tie_pool[:3] if tie_pool else []):
+    for c, li, k, d, _o in (tie_pool[:3] if tie_pool else []):
         rep.sample({"case": li[:200], "class": k})
     # 3. model tie
     try:
@@ -1224,17 +1222,175 @@ def run(tier):
 
 
 # ------------------------------------------------------------------------------------------------ model tie
-# filled in below: TIE maps op -> (engine, function building the runner line, function reading the runner's answer)
+# The SAME malformed inputs go through the extracted models (this engine's runner for the level decoders and the
+# guarded decode_all; the enc / enc2 / comp / thrift runners for the rest).  Compared: result class and reported
+# size (decoded values too where both sides print them).  A difference where the implementation is safe is
+# rep.tie_broken: a new over-read introduced by a change disagrees with a model that says ERR.
 
-TIE = {}
+TIE_MAX_COUNT = 3000        # inductive nat fuel / output lists in the extracted models
+TIE_MAX_LEN = 400
+
+
+def _hx(b):
+    return hexs(b) if b else "-"
+
+
+def _tie_line(c):
+    """-> (engine, runner line) or None when the case is outside what the runner accepts"""
+    if c.data is None or len(c.data) > TIE_MAX_LEN or c.count > TIE_MAX_COUNT or c.count < -TIE_MAX_COUNT:
+        return None
+    op = c.op
+    if op in ("rle_levels", "rle_levels_pref", "rle_all"):
+        return "dec", c.line()
+    if op.startswith("plain_"):
+        t = op[6:]
+        if t == "disp" or c.count < 0:
+            return None
+        if t == "flba":
+            if not (0 < c.p < 100000):
+                return None
+            t = "flba%d" % c.p
+        return "enc2", f"plain_dec {t} {c.count} {_hx(c.data)}"
+    if op == "delta_i32":
+        return "enc2", f"d32_dec {c.count} {_hx(c.data)}"
+    if op == "delta_i64":
+        return "enc2", f"d64_dec {c.count} {_hx(c.data)}"
+    if op == "delta_len":
+        return "enc2", f"dl_dec {c.count} {_hx(c.data)}"
+    if op == "delta_str":
+        return "enc2", f"ds_dec {c.count} {c.cap} {_hx(c.data)}"
+    if op in ("bss_f32", "bss_f64"):
+        return ("enc2", f"bss_dec {op[4:]} {c.count} {_hx(c.data)}") if c.count >= 0 else None
+    if op == "bss_flba":
+        return ("enc2", f"bss_dec {c.p} {c.count} {_hx(c.data)}") if (c.count >= 0 and 0 < c.p < 100000) else None
+    if op.startswith("dict_"):
+        # Enc/DictModel.v (enc2) instantiated with the guarded index codec of Dec/DecSafety.v: the instance
+        # Properties_C08.v speaks about (the enc2 runner's own instance predates the width guard of cf4f4e1)
+        if c.data2 is None or not (-I31 <= c.p < I31):
+            return None
+        return "dec", c.line()
+    if op == "snappy":
+        return "comp", f"sdec {c.cap} {_hx(c.data)}"
+    if op == "lz4":
+        return "comp", f"ldec {c.cap} {_hx(c.data)}"
+    if op == "snappy_len":
+        return "comp", f"slen {_hx(c.data)}"
+    if op == "thrift_ph":
+        return "thrift", f"pph {_hx(c.data)}"
+    if op == "thrift_fm":
+        return "thrift", f"pfm {_hx(c.data)}"
+    return None
+
+
+TIE = {op: True for op in ALL_OPS if op not in ("rle_stream", "plain_disp", "gzip", "zstd", "bitreader")}
 
 
 def tie_ok(c):
-    return False
+    return _tie_line(c) is not None
+
+
+def _model_view(c, ans):
+    """(class, size or None, values or None) of a runner answer"""
+    t = ans.split()
+    if not t:
+        return "RUNNER", None, None
+    if t[0] == "SKIP":
+        return "SKIP", None, None
+    if t[0] in ("ERR", "FAULT"):
+        return t[0], None, None
+    if t[0] != "OK":
+        return "RUNNER", None, None
+    op = c.op
+    vals = None
+    for x in t[1:]:
+        if x.startswith("v="):
+            vals = x[2:]
+    if op in ("rle_levels", "rle_all"):
+        return "OK", int(t[1]), vals
+    if op == "rle_levels_pref":
+        return "OK", (int(t[1]), int(t[2])), vals
+    if op.startswith("plain_") or op.startswith("delta_") or op == "thrift_ph" or op == "snappy_len":
+        return "OK", int(t[1]), None
+    if op in ("snappy", "lz4"):
+        h = t[1] if len(t) > 1 else "-"
+        return "OK", (0 if h == "-" else len(h) // 2), None
+    if op.startswith("bss_") or op.startswith("dict_"):
+        return "OK", max(c.count, 0), None
+    return "OK", None, None
+
+
+def _impl_view(c, k, d, line_out):
+    if k != "OK":
+        return k, None, None
+    t = line_out.split()
+    vals = None
+    for x in t[1:]:
+        if x.startswith("v="):
+            vals = x[2:]
+    if c.op == "rle_levels_pref":
+        return "OK", (int(t[1]), int(t[2])), vals
+    if c.op == "delta_str":
+        return "OK", int(t[1]), None
+    if c.op == "thrift_fm":
+        return "OK", None, None
+    return "OK", int(t[1]), vals
 
 
 def model_tie(rep, pool, tier):
-    rep.cov["model_tie"] = "not yet"
+    """pool: list of (case, line, class, detail, raw driver output)"""
+    per_op = 3000 if tier == "quick" else 8000
+    byop = {}
+    for item in pool:
+        byop.setdefault(item[0].op, []).append(item)
+    chosen = []
+    pick = random.Random(vlib.SEED * 31 + 5)
+    for op, items in sorted(byop.items()):
+        pick.shuffle(items)
+        chosen += items[:per_op]
+    jobs = {}
+    for item in chosen:
+        tl = _tie_line(item[0])
+        if tl:
+            jobs.setdefault(tl[0], []).append((item, tl[1]))
+    summary = {}
+    t0 = time.time()
+    for eng, lst in sorted(jobs.items()):
+        try:
+            runner = build_runner(eng)
+        except vlib.BuildError as e:
+            rep.tie_broken(f"model runner of engine {eng} does not build: " + str(e)[:300])
+            continue
+        outs, probs = run_sharded(runner, [ln for _, ln in lst], timeout=1800)
+        for pr in probs:
+            rep.tie_broken(f"model runner {eng} died (rc={pr[1]}): {pr[2][-300:]}", pr[3])
+        for ((c, li, k, d, raw), ml), ans in zip(lst, outs):
+            st = summary.setdefault(c.op, {"compared": 0, "agree": 0, "skipped": 0, "engine": eng})
+            mv = _model_view(c, ans)
+            if mv[0] in ("SKIP",) or ans.startswith("FAULT died"):
+                st["skipped"] += 1
+                continue
+            if mv[0] == "RUNNER":
+                rep.tie_broken(f"runner {eng} could not answer: {ans[:120]}", ml[:300])
+                continue
+            if k not in ("OK", "ERR"):
+                continue                      # already a violation (or UB) on the implementation side
+            iv = _impl_view(c, k, d, raw)
+            st["compared"] += 1
+            same = (iv[0] == mv[0]) and (iv[1] is None or mv[1] is None or iv[1] == mv[1]) and \
+                   (iv[2] is None or mv[2] is None or iv[2] == mv[2])
+            if same:
+                st["agree"] += 1
+            elif eng == "thrift" and iv[0] == "OK" and mv[0] == "ERR":
+                # known gap of the thrift model (reported to its owner): a KNOWN field that arrives with an
+                # unexpected wire type is skipped by its actual type in C, parsed by its declared kind in the model
+                st["known_gap"] = st.get("known_gap", 0) + 1
+            else:
+                rep.tie_broken(f"{c.op}: implementation says {raw[:100]!r}, model ({eng} runner) says {ans[:100]!r}",
+                               {"case": li[:400], "model_line": ml[:400]}, key=f"tie:{c.op}")
+    rep.cov["model_tie"] = summary
+    rep.cov["model_tie_wall_s"] = round(time.time() - t0, 1)
+    rep.cov["model_tie_not_tied"] = ("rle_stream (dynamic op sequence; the stream decoder is tied by C11), plain_disp (a switch), "
+                                      "gzip / zstd (external libraries: Section variables, nothing executable), bitreader (no model)")
 
 
 def replay(path):
